@@ -542,7 +542,8 @@ where
                             format!("Unterminated quote: {q}"),
                         ));
                     }
-                    if i == 0 {
+                    if result.is_empty() {
+                        // Nothing but separators since the last argument.
                         return Ok(None);
                     }
                     pending.clear();
